@@ -13,7 +13,11 @@ for ALL columns.  `Lemmas/AggregateFrame.lean` proves that column `j` of every f
 single-metric aggregate `Aggregate.*` of column `j` (`colTab`).
 
 Error behaviour of frames that contain non-scalar cells, as observed on pandas 3 (arrays of ≥ 2
-elements; compared by the harness on every generated case):
+elements).  pandas raises only when a reduction has to COMPARE an object cell with another cell; the
+min / max of a single object is that object (so `group_min(errors='raise')` of a one-group frame with
+a non-scalar cell returns the cell).  The harness compares the rules below on every generated frame in
+which each stratum has ≥ 2 by_group rows and each non-scalar by_group cell shares its (stratum, column)
+with another non-NaN cell; on the remaining frames only the `errors='coerce'` results are compared:
   * `errors='raise'`  group_min / group_max / between_groups: ValueError iff a BY_GROUP cell is
     non-scalar (any column) — `overall` is not looked at;
   * `errors='coerce'` (same calls): non-scalar cells count as NaN, never fails;
